@@ -23,6 +23,9 @@ import (
 	"google.golang.org/protobuf/proto"
 )
 
+// mrtdSize is the size in bytes of a TDX MRTD (SHA-384).
+const mrtdSize = 48
+
 // TdxPolicyOptions contains options for modifying a go-tdx-guest validation policy from an
 // endorsement.
 type TdxPolicyOptions struct {
@@ -66,6 +69,11 @@ func TdxPolicy(ctx context.Context, endorsement *epb.VMLaunchEndorsement, opts *
 		// If nonzero, skip sizes that don't match.
 		if opts.RAMGiB != 0 && int64(m.GetRamGib()) != int64(opts.RAMGiB) {
 			continue
+		}
+		// go-tdx-guest skips the MRTD check for an allow-list entry of length zero, so a malformed
+		// measurement must not be passed on as a reference value.
+		if len(m.GetMrtd()) != mrtdSize {
+			return nil, fmt.Errorf("tdx measurement for %d GiB of RAM is %d bytes long, want %d", m.GetRamGib(), len(m.GetMrtd()), mrtdSize)
 		}
 		mrtds = append(mrtds, m.GetMrtd())
 	}
